@@ -64,6 +64,8 @@ pub struct Ctx {
     /// when set, every LoopTop is stamped with the time elapsed since the context was created
     pub time_loop_tops: bool,
     pub t0: Option<std::time::Instant>,
+    /// harness clock when the call returned (the clock starts before the call)
+    pub returned_after: std::time::Duration,
     pub loop_times: Vec<(u64, std::time::Duration)>,
 }
 
@@ -253,7 +255,8 @@ pub fn with_ctx_timed<R>(budget: impl Into<Budget>, record: bool, timed: bool, f
     });
     LAST_PANIC.with(|p| *p.borrow_mut() = None);
     let r = catch_unwind(AssertUnwindSafe(f));
-    let ctx = CTX.with(|c| c.borrow_mut().take()).unwrap_or_default();
+    let mut ctx = CTX.with(|c| c.borrow_mut().take()).unwrap_or_default();
+    ctx.returned_after = ctx.t0.map(|t| t.elapsed()).unwrap_or_default();
     let res = match r {
         Ok(v) => Ok(v),
         Err(payload) => {
